@@ -35,5 +35,7 @@ mod encode;
 #[cfg(feature = "alloc")]
 pub use decode::decode;
 pub use decode::{decode_streaming, DecodeErr, DecodeIterator, Decoder};
+#[cfg(feature = "verif-hooks")]
+pub use decode::DecoderSnapshot;
 pub use decoder_reader::{DecoderReader, ReadDecodedError};
 pub use encode::{encode, encode_streaming, Encoder};
